@@ -340,7 +340,7 @@ func valInfo(name string, v *lang.Val) *vinfo {
 		if v.Name == "hf_args" {
 			vi.arity = 2
 		}
-		if v.Name == "hf_len" {
+		if v.Name == "hf_len" || v.Name == "hf_pack" {
 			vi.variadic = true
 			vi.arity = 1
 		}
